@@ -157,6 +157,7 @@ func (e *Env) Setup(pollers int, faults bool) {
 		vsys.K.ShortWrite = rate()
 		vsys.K.SendEAGAIN = rate() / 2
 		vsys.K.ShortRead = rate()
+		vsys.K.RecvEAGAIN = rate() / 4
 		// no EINTR on reads: a non-blocking read never sleeps, so Linux never interrupts it
 		vsys.K.EpollEINTR = rate() / 2
 		vsys.K.EpollClip = rate()
